@@ -91,7 +91,21 @@ def run_keymon(prop, tier, t0):
                            ], required_counters=spec['req'], required_anchors=spec.get('anchors', ()))
 
 
-ENGINES = {}
+def run_valmon(prop, tier, t0):
+    from kv import valmon
+    opts = {'quick': {'cases': 6000, 'budget_s': 40}, 'thorough': {'cases': 400000, 'budget_s': 600}}[tier]
+    merged, problems = common.run_shards('valmon', prop, tier, common.NCPU, opts,
+                                         timeout=opts['budget_s'] * 3 + 120)
+    return common.conclude(prop, tier, t0, merged, problems, valmon.RULE, 500, 'valmon',
+                           assumptions=ASSUME_COMMON + [
+                               'the oracle is an actual call of a side-effect-free stub with the generated signature, '
+                               'cross-checked with inspect.signature().bind; cases where the two oracles disagree '
+                               'are dropped and counted', 'builtins / non-Python callables are not generated'],
+                           required_counters=['c19_valid_calls', 'c19_invalid_calls'],
+                           required_anchors=['validate_required'])
+
+
+ENGINES = {'C19': run_valmon}
 for _p in CACHEMON:
     ENGINES[_p] = run_cachemon
 for _p in KEYMON:
